@@ -218,6 +218,20 @@ def check_model(sc):
     sys.stdout = io.StringIO()
     try:
         res = H.run(sc, callbacks=[w])
+        rc = sc.get("reconfigure")
+        if rc and not w.done:
+            # the same model re-used: an interfacial or grain-boundary energy is changed, the results are reset and the run repeated
+            m = res["model"]
+            m.clearCouplingModels()
+            if "gbe" in rc:
+                m.setGrainBoundaryEnergy(rc["gbe"])
+            for name, gam in rc.get("gamma", {}).items():
+                m.setInterfacialEnergy(gam, phase=name)
+            m.reset()
+            w2 = _RcritWatch(sc, out)
+            H.run(sc, callbacks=[w2], model=m, therm=res["therm"])
+            w.both_sides += w2.both_sides
+            out.label("reconfigured_and_rerun")
     finally:
         sys.stdout = so
     out.label(sc["system"], sc["iterator"])
@@ -245,8 +259,23 @@ def _model_case(draw):
         sc["T"] = ["const", sc["T"][1] if sc["T"][0] == "const" else sc["T"][2][0]]
         return sc
     if k % 3 == 2:
-        return draw(scen.toy_multi_scenario(cap=200, allow_profile=False))
-    return draw(scen.toy_binary_scenario(cap=250, max_phases=2, undersat=False, allow_profile=False))
+        sc = draw(scen.toy_multi_scenario(cap=200, allow_profile=False))
+    else:
+        sc = draw(scen.toy_binary_scenario(cap=250, max_phases=2, undersat=False, allow_profile=False))
+    if draw(st.integers(0, 2)) == 2:
+        # second run on the same model after changing an energy (kept admissible for boundary-type sites: k = gbe/(2 gamma) below its limit)
+        rc = {}
+        gbs = [p for p in sc["phases"] if p["site"] in scen.KMAX]
+        if gbs and draw(st.booleans()):
+            rc["gbe"] = min(2 * draw(st.floats(0.0, 0.95)) * scen.KMAX[p["site"]] * p["gamma"] for p in gbs)
+        else:
+            p = sc["phases"][draw(st.integers(0, len(sc["phases"]) - 1))]
+            gam = p["gamma"] * draw(st.floats(0.7, 1.5))
+            if p["site"] in scen.KMAX and "gbe" in sc:
+                gam = max(gam, sc["gbe"] / (2 * 0.95 * scen.KMAX[p["site"]]))
+            rc["gamma"] = {p["name"]: float(gam)}
+        sc["reconfigure"] = rc
+    return sc
 
 
 @st.composite
@@ -286,7 +315,7 @@ def clauses():
                rule="generator: Al-Zr, T in [500,900] K, 2-7 Gibbs-Thomson energies in {0, 1..1e5} J/mol, 3-6 relative supersaturations in [-0.5, 30]; "
                     "oracle: dG(x_alpha(T,g),T) = g, x_alpha monotone in g, sentinel monotone, sign change at the planar solvus, dG increasing in x, four methods agree in sign, three in value (offset), curvature limit; non-trivial: >= 2 stable Gibbs-Thomson points"),
         Clause("model_rcrit", _model_case, check_model, quick=160, thorough=3000, shrink=False,
-               rule="generator: (1 in 12: Al-Zr / Ni-Al-Cr on the shipped databases) toy binary (1-2 phases, all site types and shapes, constant strain energy) and toy ternary scenarios at constant temperature; observer after every step: boundaries beyond one class width above (below) the reported critical radius grow (shrink); non-trivial: >= 5 steps with judged boundaries on both sides"),
+               rule="generator: (1 in 12: Al-Zr / Ni-Al-Cr on the shipped databases) toy binary (1-2 phases, all site types and shapes, constant strain energy) and toy ternary scenarios at constant temperature, 1 in 3 followed by a change of an interfacial or grain-boundary energy, reset() and a second run on the same model; observer after every step: boundaries beyond one class width above (below) the reported critical radius grow (shrink); non-trivial: >= 5 steps with judged boundaries on both sides"),
         Clause("model_rcrit_ramp", _ramp_case, check_model_ramp, quick=96, thorough=2000, shrink=False,
                rule="generator: toy binary (3 in 4) and toy ternary scenarios, spherical precipitates without strain energy, temperature ramps of 1-3 segments of 2-40 K each (2 in 3 start by cooling; direction may reverse); "
                     "observer after every step: boundaries beyond one class width above (below) the largest (smallest) critical radius over temperatures within constraints.maxTempChange of the current one grow (shrink); non-trivial: >= 5 judged steps with boundaries on both sides"),
